@@ -202,16 +202,16 @@ Qed.
 Lemma classify_ok columns o k : pc_classify columns o = Ok k -> class_ok k.
 Proof.
   unfold pc_classify.
-  destruct (pc_find_required S_specid columns) as [specid|]; [|discriminate]. cbn [bind].
-  destruct (pc_find_required S_peptide columns) as [pep|]; [|discriminate]. cbn [bind].
-  destruct (pc_find_required S_proteins columns) as [prot|]; [|discriminate]. cbn [bind].
-  destruct (pc_find_required S_label columns) as [lab|]; [|discriminate]. cbn [bind].
-  destruct (pc_find_required S_scannr columns) as [scan|]; [|discriminate]. cbn [bind].
-  destruct (pc_find_optional (o_filename o) columns S_filename) as [fn|]; [|discriminate]. cbn [bind].
-  destruct (pc_find_optional (o_calcmass o) columns S_calcmass) as [cm|]; [|discriminate]. cbn [bind].
-  destruct (pc_find_optional (o_expmass o) columns S_expmass) as [em|]; [|discriminate]. cbn [bind].
-  destruct (pc_find_optional (o_rt o) columns S_ret_time) as [rt|]; [|discriminate]. cbn [bind].
-  destruct (pc_find_optional (o_charge o) columns S_charge_column) as [ch|]; [|discriminate]. cbn [bind].
+  destruct (pc_find_required pcS_specid columns) as [specid|]; [|discriminate]. cbn [bind].
+  destruct (pc_find_required pcS_peptide columns) as [pep|]; [|discriminate]. cbn [bind].
+  destruct (pc_find_required pcS_proteins columns) as [prot|]; [|discriminate]. cbn [bind].
+  destruct (pc_find_required pcS_label columns) as [lab|]; [|discriminate]. cbn [bind].
+  destruct (pc_find_required pcS_scannr columns) as [scan|]; [|discriminate]. cbn [bind].
+  destruct (pc_find_optional (o_filename o) columns pcS_filename) as [fn|]; [|discriminate]. cbn [bind].
+  destruct (pc_find_optional (o_calcmass o) columns pcS_calcmass) as [cm|]; [|discriminate]. cbn [bind].
+  destruct (pc_find_optional (o_expmass o) columns pcS_expmass) as [em|]; [|discriminate]. cbn [bind].
+  destruct (pc_find_optional (o_rt o) columns pcS_ret_time) as [rt|]; [|discriminate]. cbn [bind].
+  destruct (pc_find_optional (o_charge o) columns pcS_charge_column) as [ch|]; [|discriminate]. cbn [bind].
   intros H. injection H as <-. unfold class_ok. cbn [k_spectra k_label k_nonfeat].
   intros c Hc. apply in_app_or in Hc.
   assert (In c (pc_somes [fn; cm; em; rt]) \/ c = scan \/ c = lab) as Hcases.
@@ -256,16 +256,16 @@ Lemma classify_spectra columns o k : pc_classify columns o = Ok k ->
   k_spectra k = pc_somes [k_filename k; Some (k_scan k); k_rt k; k_expmass k].
 Proof.
   unfold pc_classify.
-  destruct (pc_find_required S_specid columns) as [specid|]; [|discriminate]. cbn [bind].
-  destruct (pc_find_required S_peptide columns) as [pep|]; [|discriminate]. cbn [bind].
-  destruct (pc_find_required S_proteins columns) as [prot|]; [|discriminate]. cbn [bind].
-  destruct (pc_find_required S_label columns) as [lab|]; [|discriminate]. cbn [bind].
-  destruct (pc_find_required S_scannr columns) as [scan|]; [|discriminate]. cbn [bind].
-  destruct (pc_find_optional (o_filename o) columns S_filename) as [fn|]; [|discriminate]. cbn [bind].
-  destruct (pc_find_optional (o_calcmass o) columns S_calcmass) as [cm|]; [|discriminate]. cbn [bind].
-  destruct (pc_find_optional (o_expmass o) columns S_expmass) as [em|]; [|discriminate]. cbn [bind].
-  destruct (pc_find_optional (o_rt o) columns S_ret_time) as [rt|]; [|discriminate]. cbn [bind].
-  destruct (pc_find_optional (o_charge o) columns S_charge_column) as [ch|]; [|discriminate]. cbn [bind].
+  destruct (pc_find_required pcS_specid columns) as [specid|]; [|discriminate]. cbn [bind].
+  destruct (pc_find_required pcS_peptide columns) as [pep|]; [|discriminate]. cbn [bind].
+  destruct (pc_find_required pcS_proteins columns) as [prot|]; [|discriminate]. cbn [bind].
+  destruct (pc_find_required pcS_label columns) as [lab|]; [|discriminate]. cbn [bind].
+  destruct (pc_find_required pcS_scannr columns) as [scan|]; [|discriminate]. cbn [bind].
+  destruct (pc_find_optional (o_filename o) columns pcS_filename) as [fn|]; [|discriminate]. cbn [bind].
+  destruct (pc_find_optional (o_calcmass o) columns pcS_calcmass) as [cm|]; [|discriminate]. cbn [bind].
+  destruct (pc_find_optional (o_expmass o) columns pcS_expmass) as [em|]; [|discriminate]. cbn [bind].
+  destruct (pc_find_optional (o_rt o) columns pcS_ret_time) as [rt|]; [|discriminate]. cbn [bind].
+  destruct (pc_find_optional (o_charge o) columns pcS_charge_column) as [ch|]; [|discriminate]. cbn [bind].
   intros H. injection H as <-. reflexivity.
 Qed.
 
